@@ -1728,13 +1728,13 @@ GEN_RULE = ("cases are documents from the acceptance corpus, a structured mostly
             "Unicode), line mutations of those, and noisy line soup; distinct = distinct canonical input; ")
 
 PROPS = {
-    "C01": dict(modules=["C01", "C01Linear", "C01NoCrash"], run=run_C01, translators=["parser_table", "dialects"],
+    "C01": dict(modules=["C01", "C01Linear", "C01NoCrash", "C01NoCrashAll"], run=run_C01, translators=["parser_table", "dialects"],
                 rule=GEN_RULE + "plus Unicode soup with surrogates/NUL and all strings ≤ L over a 10-symbol alphabet; non-trivial = any input"),
     "C02": dict(modules=["C02", "C02Tree", "C02Text", "C02Siblings"], run=run_C02, translators=["parser_table", "grammar", "siblings"], exhaustive=True,
                 rule="all line-kind sequences up to length L through the real Parser (stub matcher) vs the grammar reading (Spec.Sentence) and the table model's events; sampled longer ones; real-text documents; non-trivial = accepted"),
-    "C03": dict(modules=["C03", "C03Tree", "C03Parse"], run=run_C03, translators=["parser_table", "dialects"], rule=GEN_RULE + "non-trivial = accepted document"),
-    "C04": dict(modules=["C04"], run=run_C04, translators=["parser_table", "dialects"], rule=GEN_RULE + "plus all rows/tag lines ≤ L over the distinguishing classes; non-trivial = any"),
-    "C05": dict(modules=["C05"], run=run_C05, translators=["dialects", "dialects_master"], exhaustive=True,
+    "C03": dict(modules=["C03", "C03Tree", "C03Parse", "C03Doc"], run=run_C03, translators=["parser_table", "dialects"], rule=GEN_RULE + "non-trivial = accepted document"),
+    "C04": dict(modules=["C04", "C03Doc"], run=run_C04, translators=["parser_table", "dialects"], rule=GEN_RULE + "plus all rows/tag lines ≤ L over the distinguishing classes; non-trivial = any"),
+    "C05": dict(modules=["C05", "C03Doc"], run=run_C05, translators=["dialects", "dialects_master"], exhaustive=True,
                 rule="complete enumeration dialect × keyword × role × layout through the real matcher; header spellings; one generated document per dialect; non-trivial = matched"),
     "C06": dict(modules=["C06"], run=make_compile_run(proj_pickle_origin), rule=GEN_RULE + "and synthetic ASTs decoded from random descriptors; non-trivial = at least one pickle"),
     "C07": dict(modules=["C07"], run=make_compile_run(proj_pickle_steps), rule=GEN_RULE + "and synthetic ASTs (several backgrounds/rules); non-trivial = at least one pickle"),
@@ -1746,7 +1746,7 @@ PROPS = {
     "C11": dict(modules=["C11", "C11Builder", "C11Tree", "C03Parse"], run=make_compile_run(proj_pickle_ids, extra_C11), rule=GEN_RULE + "plus sequences of sources through one stream; non-trivial = ids were drawn"),
     "C12": dict(modules=["C12"], run=run_C12, exhaustive=True,
                 rule="every row string ≤ L over {|, \\, n, space, tab, other} plus Unicode rows; generated ragged/rectangular tables; non-trivial = at least one cell"),
-    "C13": dict(modules=["C13"], run=run_C13, translators=["parser_table"], rule="doc strings with content lines from every Gherkin-looking kind, both delimiters, all indentation relations; matcher in the content state; non-trivial = accepted"),
+    "C13": dict(modules=["C13", "C03Doc"], run=run_C13, translators=["parser_table"], rule="doc strings with content lines from every Gherkin-looking kind, both delimiters, all indentation relations; matcher in the content state; non-trivial = accepted"),
     "C14": dict(modules=["C14", "C14Stop"], run=run_C14, translators=["parser_table"], exhaustive=True,
                 rule=GEN_RULE + "both error modes; all line-kind sequences ≤ L for error positions; non-trivial = rejected"),
     "C15": dict(modules=["C15"], run=run_C15, exhaustive=True,
